@@ -1213,6 +1213,61 @@ where
     }
 }
 
+/// Instrumentation for the external verification harness (`--cfg constriction_verif`).
+/// Compiled out otherwise. Gives read access to the private fields of
+/// [`ChainCoderHeads`] and lets the harness assemble a [`ChainCoder`] from raw parts, so
+/// that complete single-step sweeps over all head states are possible.
+#[cfg(constriction_verif)]
+impl<Word: BitArray, State: BitArray, const PRECISION: usize>
+    ChainCoderHeads<Word, State, PRECISION>
+{
+    /// Returns the raw fields `(compressed, remainders)`.
+    pub fn verif_raw(&self) -> (Word, State) {
+        (self.compressed.get(), self.remainders)
+    }
+
+    /// Builds heads from raw fields without checking any invariant other than
+    /// `compressed != 0` (which the type enforces); returns `None` if `compressed == 0`.
+    pub fn verif_from_raw(compressed: Word, remainders: State) -> Option<Self> {
+        Some(Self {
+            compressed: compressed.into_nonzero()?,
+            remainders,
+        })
+    }
+}
+
+#[cfg(constriction_verif)]
+impl<Word, State, CompressedBackend, RemaindersBackend, const PRECISION: usize>
+    ChainCoder<Word, State, CompressedBackend, RemaindersBackend, PRECISION>
+where
+    Word: BitArray + Into<State>,
+    State: BitArray + AsPrimitive<Word>,
+{
+    /// Assembles a `ChainCoder` from its three fields without any check.
+    pub fn verif_from_parts(
+        compressed: CompressedBackend,
+        remainders: RemaindersBackend,
+        heads: ChainCoderHeads<Word, State, PRECISION>,
+    ) -> Self {
+        Self {
+            compressed,
+            remainders,
+            heads,
+        }
+    }
+
+    /// Takes a `ChainCoder` apart into `(compressed, remainders, heads)`.
+    pub fn verif_into_parts(
+        self,
+    ) -> (
+        CompressedBackend,
+        RemaindersBackend,
+        ChainCoderHeads<Word, State, PRECISION>,
+    ) {
+        (self.compressed, self.remainders, self.heads)
+    }
+}
+
 #[cfg(test)]
 mod tests {
     use super::super::model::LeakyQuantizer;
